@@ -51,6 +51,8 @@ pub struct Report {
     pub notes: Vec<String>,
     pub not_covered: Vec<String>,
     pub caps: Vec<String>,
+    /// problems of the harness itself (environment not fully owned, ...): never a verdict
+    pub machinery: Vec<String>,
     distinct: HashSet<u64>,
     outcomes: BTreeMap<String, HashSet<u64>>,
     pub max_samples: usize,
@@ -70,6 +72,7 @@ impl Report {
             notes: Vec::new(),
             not_covered: Vec::new(),
             caps: Vec::new(),
+            machinery: Vec::new(),
             distinct: HashSet::new(),
             outcomes: BTreeMap::new(),
             max_samples: 6,
@@ -197,6 +200,13 @@ impl Report {
         }
     }
 
+    pub fn machinery(&mut self, s: impl Into<String>) {
+        let s = s.into();
+        if !self.machinery.contains(&s) && self.machinery.len() < 50 {
+            self.machinery.push(s);
+        }
+    }
+
     pub fn to_json(&self, capped: bool) -> Value {
         let spaces: serde_json::Map<String, Value> = self
             .spaces
@@ -226,6 +236,7 @@ impl Report {
             "notes": self.notes,
             "not_covered": self.not_covered,
             "caps": self.caps,
+            "machinery": self.machinery,
             "capped": capped,
         })
     }
